@@ -196,6 +196,10 @@ PEO 1
 resname "GLY|ALA|LYS|GLYC|LYSN|PEO"
 [ bonds ]
 BB +BB 1 0.35 1250
+[ link ]
+resname "ALA"
+[ atoms ]
+SC1 {"replace": {"atomname": "SCA"}}
 [ modification ]
 N-ter
 [ atoms ]
